@@ -83,7 +83,13 @@ def candidates (c : Cfg) (b : Bounds) (m : MState) : List IStep :=
         (if sv.role = .leader && countIsrOps st < b.maxIsrOps then
           sids.flatMap fun r => [IStep.shrinkDecision s r, IStep.expandDecision s r]
          else []) ++
-        (if sv.role = .leader then (keys sv.caughtUp).map (IStep.clearCaughtUp s ·) else [])
+        (if sv.role = .leader then (keys sv.caughtUp).map (IStep.clearCaughtUp s ·) else []) ++
+        -- the "seen" timer running out is explored only where it changes what `tick` decides (never, for
+        -- the tick rule as it is: a replica that is not caught up is out of sync whether seen or not)
+        (if sv.role = .leader then
+          (sv.seen.filter fun r => (lookup sv.caughtUp r).isNone &&
+            outOfSync { sv with seen := sv.seen.filter (· ≠ r) } r != outOfSync sv r).map (IStep.clearSeen s ·)
+         else [])
   let perNet := (List.range st.net.length).flatMap fun i =>
     match st.net[i]? with
     | some (Net.replReq ..) => (sids.map (IStep.serve · i)) ++ (if b.lossyRPC then [IStep.drop i] else [])
@@ -138,7 +144,9 @@ def hSrv (sv : Srv) : UInt64 :=
   mixHash (hash sv.up) <| mixHash (hLog sv.log) <| mixHash (hash sv.role) <| mixHash (hash sv.applied) <|
   mixHash (hash sv.leader) <| mixHash (hash sv.leaderEpoch) <| mixHash (hash sv.isrOff) <|
   mixHash (hash sv.recovered) <| mixHash (hash (sv.queue.map fun a => (a.offset, a.mid, a.policy))) <|
-  mixHash (hash sv.commitCheck) <| mixHash (hash sv.caughtUp) (hash sv.waiting.isSome)
+  mixHash (hash sv.commitCheck) <| mixHash (hash sv.caughtUp) <|
+  -- the "seen" flags through what they decide (prunes states that differ in flags `tick` does not read)
+  mixHash (hash ((List.range (sv.isrOff.length + sv.seen.length + 3)).map (outOfSync sv))) (hash sv.waiting.isSome)
 
 def hState (m : MState) : UInt64 :=
   let st := m.st
